@@ -20,14 +20,23 @@
 //     type; a pointer to a struct becomes `Option <structure>` and a field
 //     access through a nil pointer makes the result `none` (a panic);
 //   - statements: if / else, expression-less and tagged switch (no
-//     fallthrough), return (also naked), :=, =, op=, ++, --, var, assignments
+//     fallthrough), type switch over a symbolic interface value (see below),
+//     return (also naked), :=, =, op=, ++, --, var, local const
+//     (folded at its uses), assignments
 //     to fields of the receiver or of local struct values; statements after a
 //     branching statement are duplicated into both branches;
+//   - `for range n { f(…); _ = g(…) }` over an integer n whose body consists
+//     only of calls with discarded results (trace mode): the body's trace
+//     entries are appended `n` times (`List.replicate n.toNat [...]`);
+//   - a `panic(…)` statement (outside loops) makes the result `none`, like
+//     every other run-time panic;
 //   - expressions: literals, constants (folded with go/types, so imported
 //     constants such as dns.MaxMsgSize are resolved from the dependency's
 //     export data), parameters, locals, field selectors, arithmetic,
 //     comparisons, !, && and || with Go's short-circuit order, integer
-//     conversions (identity), the built-ins min and max;
+//     conversions (identity), the built-ins min and max; the integer conversion
+//     of `d.Seconds()` for a time.Duration d is `Int.tdiv d 1e9` (whole
+//     seconds; float64 rounding of huge durations is not modelled);
 //   - a call to another function of the same translation list is a call of its
 //     Lean definition; cmp.Or over errors is "first non-nil, all arguments
 //     evaluated"; validateProp(name, f) is `f()` (the name prefix is kept in
@@ -69,9 +78,19 @@
 //   - a *value* of abstract type (local, result of an opaque call, parameter
 //     that is compared with nil) is modelled by what the code can observe of
 //     it: `AbsPtr` (true = non-nil) for pointers, interfaces, maps, slices, …,
-//     `Unit` otherwise; `&T{…}` of abstract type is non-nil; an assignment to a
+//     `Unit` otherwise (also as a function result); in trace mode a re-slicing
+//     `a[i:j]` is an opaque value preceded by the entry ("slice", [text with
+//     bounds]) and `*p = v` through an abstract pointer is an effect like a
+//     field assignment; `&T{…}` of abstract type is non-nil and, in trace mode
+//     with the file-level option "trace_new",
+//     the entry ("new T", ["K=" ++ value, …]) (nested literals flattened to
+//     "K.L=…", values of scalar type rendered, "_" otherwise); a
+//     field of abstract type of a translated struct (`mh.next`) is read as such
+//     an opaque value, and so is a type assertion `x.(T)` (the dynamic type is
+//     not modelled); an assignment to a
 //     field of an abstract object (`resp.Compress = true`) is an effect and is
-//     appended to the trace as `("set resp.Compress", ["true"])`; values read
+//     appended to the trace as `("set resp.Compress", ["true"])` (the
+//     value of a call of scalar type is evaluated first, its opaque calls traced); values read
 //     from abstract objects are re-read (fresh parameters) after any opaque
 //     call or such a write;
 //   - with the file-level option "abstract_bytes", byte slices are abstract
@@ -79,15 +98,78 @@
 //     `buf[lo:hi]` passed to a traced call is shown as "buf[<lo>:<hi>]" with
 //     the values of its bounds, so which window of a buffer is handed to
 //     Unpack / Write is part of the translated meaning;
+//   - fmt.Errorf / errors.New (and the validators' newXxxError helpers) are
+//     fixed non-nil error texts; with the file-level option "trace_errors" they
+//     are, in traced functions, opaque calls like any other (a parameter for
+//     the result and a trace entry with the format string) — the behaviour the
+//     ties of C08 (and others written before the texts became fixed) rely on;
+//     listing fmt.Errorf or slices.Contains under "pure" also makes the call
+//     an (untraced) opaque value instead of the fixed text / the intrinsic;
+//   - a field of abstract type of a translated structure and an element of
+//     an abstract slice are read like values of abstract objects (above);
+//   - the spec file may declare such a type *symbolic* (object form of the
+//     option, `true` being the token mode above; "symbolic":
+//     {"net/netip.Addr": "String", "…/filter.Result": "(Option String)"}): its
+//     values are then carried as values of the given Lean type — `String`: an
+//     injective rendering of the value, the zero value (`T{}`, `var x T`) is
+//     "", `==` is equality of renderings; `(Option String)` for an interface:
+//     `none` is nil, `some t` a value whose dynamic type prints as `t` —
+//     and methods called on them are opaque calls;
+//   - a keyed literal `T{f: v}` / `&T{f: v}` of a translated struct type is a
+//     structure instance (`some …` for `&`), omitted fields are zero; the
+//     given fields are evaluated in the order of the literal; fields of abstract
+//     type are left out as in the structure itself (in a traced function a
+//     call in such a field is a translation error);
+//   - with "drop_abstract" (the treatment TrC19 was written against, instead
+//     of AbsPtr / Unit values, see below), `v := <ident or selector>` /
+//     `v := f(…)` for a `v` of abstract type
+//     (`hdr := r.Header`, `ctx := r.Context()`) drops the binding; the call is
+//     still an effect: dropped when listed under "ignore"/"pure", recorded in
+//     the trace when "trace" is set, a translation error otherwise;
+//   - with "trace_nested", scalar-valued calls among the arguments of a traced
+//     call statement (`h.Set(k, in.Get(k))`) are evaluated first, left to
+//     right, with their own trace entries, and their values are the argument
+//     values of the outer entry (otherwise such an argument is shown as "_");
+//   - with "trace" and "drop_abstract", an assignment to a field of an
+//     abstract value (`r.Out.Host = v`) is the trace entry ("Host=", [v])
+//     (otherwise ("set r.Out.Host", [v]), see below);
+//   - "func": "Outer#name" selects the function literal bound by
+//     `name := func(…) {…}` inside Outer; captured variables of translatable
+//     type become leading parameters, abstract ones are treated as above;
+//   - with "trace", an assignment to a field of abstract type of a translated
+//     struct (`cr.subnet = netutil.ZeroPrefix(fam)`) is the trace entry
+//     ("set cr.subnet", [name]) as well;
+//   - with the option "names" a value of abstract type that is assigned to a
+//     local or returned is instead represented by a *symbolic name* (a Lean
+//     String): the source text of the field path, parameter, `nil` or call that
+//     produced it (the call is traced); such a local or a field path passed to
+//     a traced call appears in the trace entry by that name, and a method
+//     called on such a local records the name as first argument ("which of the
+//     two caches is written"); results of abstract type are such names;
+//   - with "trace", `for k, v := range X` over an abstract X whose body consists
+//     only of traced calls, assignments to fields of abstract objects and nested
+//     such loops, and reads no value that varies per element (no new opaque
+//     parameter), is an *effect loop*: the trace entries ("for", ["v, k, range
+//     X"]), the entries of the body (once: they are the same for every
+//     element), ("end", []);
+//   - a type switch on an abstract value is an if-chain, in clause order, over
+//     extra Bool parameters `e<k>_is_<T>` ("the dynamic type is T"); fields of
+//     the narrowed value are opaque values as above;
 //   - []error literals, append on them and errors.Join are lists of optional
 //     texts and "first non-nil" (errors.Join is non-nil iff an element is);
 //   - opaque calls and reads from abstract objects are not allowed inside
-//     loops (one parameter cannot stand for a different result per iteration);
+//     loops (one parameter cannot stand for a different result per iteration)
+//     unless the function has "loop_opaque": then one parameter does stand for
+//     the result in every iteration (theorems about such a loop hold under
+//     that reading only; TrC16's Upload);
 //   - any other call is *opaque*: its result becomes an extra parameter of the
 //     Lean definition (`o<k>_<callee>`, one per call site, in order of
 //     appearance) and, when "trace" is set, the definition also returns the
 //     list of opaque calls reached, in order, each with the values of its
-//     arguments of scalar type — so "which external effects happen, in which
+//     arguments of scalar type (a slice expression `a[i:j]` is
+//     rendered as "a[" ++ i ++ ":" ++ j ++ "]" with the bounds' values; with
+//     "trace_qual" the callee is recorded with its last qualifier,
+//     `Ratelimiter.Check` rather than `Check`) — so "which external effects happen, in which
 //     order and with which arguments" is part of the translated meaning; calls
 //     listed under "pure" are opaque values that are not traced; a call to a
 //     translated function that itself has opaque parameters is opaque too;
@@ -102,7 +184,27 @@
 //     (the handler closure a middleware's Wrap returns), with the enclosing
 //     receiver in scope; methods listed under "identity" return their receiver;
 //   - "recv_nonnil" models a pointer receiver as the struct itself (the
-//     assumption that callers never pass nil is stated where it is used).
+//     assumption that callers never pass nil is stated where it is used);
+//     "nonnil" does the same for the listed pointer parameters;
+//   - "trace_repr" records trace arguments of structure / option / list type
+//     as `reprStr <value>` instead of "_", and an argument `x.f` of abstract
+//     type, x of a translated struct type, as "field:f".
+//   - with "trace", a store to a map element `m[k] = v` is an effect recorded
+//     as ("set m[k]", [k, fields of v…]) (scalar fields of a translated struct
+//     in declaration order, "nil" for a nil pointer); a store to a field of
+//     abstract type of a translated struct (`rec.Time = start`) is recorded
+//     like a write to an abstract object: ("set rec.Time", ["start"]);
+//   - "out" lists local variables (typically pointers the function mutates
+//     through, `rec.Queries++`) whose final value is returned after the
+//     declared results; they start as their zero value;
+//   - `for k, v := range m` over a map with translatable key and element
+//     types is goRange over an extra parameter `e<k>_<m>_entries : List (K × V)`
+//     — the entries in the order the run time happens to choose, so theorems
+//     hold for every order (opaque calls in the loop body need "loop_opaque");
+//   - "range_body" translates, instead of the whole function, the body of its
+//     first `for k, v := range …` statement as a function of the loop
+//     variables (one iteration; `continue` ends it) — the way to state the
+//     per-element rule of a loop over a map, whose order is unspecified.
 //
 // Anything else is a translation error: the generated definition is replaced
 // by a marker that makes the Tie theorem fail, i.e. a broken obligation.
@@ -145,6 +247,10 @@ type TrFunc struct {
 	// Func: its body is translated as a function of its own parameters, with
 	// the enclosing function's receiver and parameters in scope.
 	Lit int `json:"lit,omitempty"`
+	// TraceQual records a traced call as "x.Method" (the last two components
+	// of the printed callee: field or variable, then method) instead of
+	// "Method", to tell `prof.Ratelimiter.Check` from `mw.limiter.Check`.
+	TraceQual bool `json:"trace_qual,omitempty"`
 	// RecvNonNil models the pointer receiver as the struct itself: callers
 	// are assumed never to pass nil (stated where it is used).
 	RecvNonNil bool `json:"recv_nonnil,omitempty"`
@@ -158,14 +264,61 @@ type TrFunc struct {
 	// Pure lists printed callee expressions whose calls are opaque *values*
 	// that are not recorded in the trace (getters such as t.UnixNano).
 	Pure []string `json:"pure,omitempty"`
+	// NonNil lists pointer-to-struct parameters modelled as the struct itself,
+	// like recv_nonnil for the receiver (callers never pass nil).
+	NonNil []string `json:"nonnil,omitempty"`
+	// TraceRepr renders trace arguments of non-scalar translatable type
+	// (structures, options, lists) with `reprStr` instead of "_".
+	TraceRepr bool `json:"trace_repr,omitempty"`
+	// TraceNested: scalar-valued calls among the arguments of a traced call
+	// statement are evaluated (and traced) first; their values appear in the
+	// outer trace entry instead of "_".
+	TraceNested bool `json:"trace_nested,omitempty"`
+	// DropAbstract: locals of abstract type are not modelled as AbsPtr / Unit
+	// values; `v := x.f` / `v := f(…)` drops the binding (the call stays an
+	// effect) and `x.f = v` on an abstract x is the entry ("f=", [v]).
+	DropAbstract bool `json:"drop_abstract,omitempty"`
+	// Names represents values of abstract type by symbolic names (Strings)
+	// instead of their nil-ness; see the header comment.
+	Names bool `json:"names,omitempty"`
+	// Out lists local variables whose final value is returned as well.
+	Out []string `json:"out,omitempty"`
+	// RangeBody translates the body of the first range statement only.
+	RangeBody bool `json:"range_body,omitempty"`
+	// LoopOpaque allows opaque calls and reads from abstract objects inside
+	// range loops: one parameter then stands for the result in every iteration.
+	LoopOpaque bool `json:"loop_opaque,omitempty"`
 }
 
 type trSpecFile struct {
 	Funcs []TrFunc `json:"funcs"`
-	// Symbolic turns values of abstract types into tokens (see the header).
-	Symbolic bool `json:"symbolic,omitempty"`
+	// Symbolic is either `true`: values of all abstract types become tokens
+	// (see the header), or an object that maps qualified type names
+	// ("net/netip.Addr") the subset cannot express to the Lean type that
+	// stands for their values.
+	Symbolic symbolicOpt `json:"symbolic,omitempty"`
 	// AbstractBytes makes byte slices abstract buffers (see the header).
 	AbstractBytes bool `json:"abstract_bytes,omitempty"`
+	// TraceErrors: in traced functions fmt.Errorf / errors.New are opaque
+	// calls (a parameter and a trace entry) instead of fixed error texts.
+	TraceErrors bool `json:"trace_errors,omitempty"`
+	// TraceNew: in traced functions `&T{…}` of abstract type is also the
+	// trace entry ("new T", ["K=" ++ value, …]).
+	TraceNew bool `json:"trace_new,omitempty"`
+}
+
+// symbolicOpt is the value of the file-level option "symbolic": a boolean
+// (all abstract types are tokens) or a map from type names to Lean types.
+type symbolicOpt struct {
+	All   bool
+	Types map[string]string
+}
+
+func (o *symbolicOpt) UnmarshalJSON(b []byte) error {
+	if err := json.Unmarshal(b, &o.All); err == nil {
+		return nil
+	}
+	return json.Unmarshal(b, &o.Types)
 }
 
 type loadedPkg struct {
@@ -280,6 +433,12 @@ type translator struct {
 	symbolic bool
 	// absBytes: byte slices are abstract buffers.
 	absBytes bool
+	// traceErrors: fmt.Errorf / errors.New are traced opaque calls in traced functions.
+	traceErrors bool
+	// traceNew: `&T{…}` of abstract type is also a ("new T", […]) trace entry.
+	traceNew bool
+	// symb: the types declared symbolic one by one ("symbolic": {type: Lean type}).
+	symb map[string]string
 }
 
 type funcOut struct {
@@ -319,6 +478,9 @@ func (t *translator) leanTypeC(ty types.Type) string {
 	case *types.Named:
 		if u.Obj().Pkg() == nil && u.Obj().Name() == "error" {
 			return "(Option String)"
+		}
+		if u.Obj().Pkg() != nil && t.symb[u.Obj().Pkg().Path()+"."+u.Obj().Name()] != "" {
+			return t.symb[u.Obj().Pkg().Path()+"."+u.Obj().Name()]
 		}
 		if st, ok := u.Underlying().(*types.Struct); ok {
 			return t.structType(u, st)
@@ -447,7 +609,7 @@ var leanKeywords = map[string]bool{"end": true, "from": true, "fun": true, "at":
 	"notation": true, "infix": true, "prefix": true, "postfix": true, "deriving": true, "extends": true, "using": true,
 	"calc": true, "return": true, "for": true, "mut": true, "try": true, "catch": true, "finally": true, "unless": true,
 	"nomatch": true, "nofun": true, "Prop": true, "Sort": true, "set_option": true, "attribute": true, "universe": true,
-	"inductive": true, "abbrev": true, "example": true, "axiom": true, "opaque": true, "omit": true, "include": true}
+	"inductive": true, "rec": true, "abbrev": true, "example": true, "axiom": true, "opaque": true, "omit": true, "include": true}
 
 func leanIdent(s string) string {
 	if s == "_" {
@@ -485,7 +647,10 @@ type fctx struct {
 	defers      []deferred
 	onEnd       func() string
 	opaqueNodes map[ast.Expr]string
+	typeTests   map[*ast.TypeAssertExpr]bool
+	loopEnd     map[*ast.EmptyStmt]int
 	opaqueCalls map[*ast.CallExpr]string
+	nonNil      map[types.Object]bool
 }
 
 type ex struct {
@@ -495,6 +660,9 @@ type ex struct {
 
 func (c *fctx) isRecvVal(e ast.Expr) bool {
 	id, ok := e.(*ast.Ident)
+	if ok && c.nonNil[c.p.info.Uses[id]] {
+		return true
+	}
 	return ok && c.recvVal && id.Name == c.recv
 }
 
@@ -606,6 +774,12 @@ func implementsError(t types.Type) bool {
 // exprAs translates e for a context of type to (implicit conversion of a
 // concrete error value to the error interface).
 func (c *fctx) exprAs(e ast.Expr, to types.Type) ex {
+	if c.spec.Names && to != nil && c.t.leanType(to) == "" {
+		if a, ok := c.absExpr(e, true); ok {
+			return a
+		}
+		fail("abstract value %s", c.show(e))
+	}
 	if to != nil && c.t.leanType(to) == "" && c.t.valType(to) == "AbsPtr" {
 		// a value flowing into an abstract nil-able type: only its nil-ness is kept
 		if id, ok := e.(*ast.Ident); ok && id.Name == "nil" {
@@ -623,12 +797,16 @@ func (c *fctx) exprAs(e ast.Expr, to types.Type) ex {
 						xs = append(xs, c.expr(v))
 					}
 				}
-				return c.bindN(xs, func(s []string) string {
+				r := c.bindN(xs, func(s []string) string {
 					if len(s) == 0 {
 						return "true"
 					}
 					return "(Function.const _ true (" + strings.Join(s, ", ") + "))"
 				})
+				if c.trace && c.t.traceNew {
+					r.code += "«call:" + c.litEntry(cl) + "»"
+				}
+				return r
 			}
 		}
 		if from := c.typeOf(e); c.t.leanType(from) != "" && isPtrStruct(from) {
@@ -653,6 +831,43 @@ func (c *fctx) exprAs(e ast.Expr, to types.Type) ex {
 		}
 	}
 	return c.expr(e)
+}
+
+// absExpr gives the symbolic name (a Lean String) of an expression of abstract
+// type ("names"): a local holds the name it was assigned; a field path is its
+// own source text; where value is set (assignments, returns) nil and parameters
+// are their own text too and a call is traced and named by its source text.
+func (c *fctx) absExpr(e ast.Expr, value bool) (ex, bool) {
+	switch x := ast.Unparen(e).(type) {
+	case *ast.Ident:
+		v, ok := c.p.info.Uses[x].(*types.Var)
+		if ok && v.Parent() != c.p.pkg.Scope() && !(c.fd.Type.Params.Pos() <= v.Pos() && v.Pos() < c.fd.Type.Params.End()) &&
+			!(c.fd.Recv != nil && c.fd.Recv.Pos() <= v.Pos() && v.Pos() < c.fd.Recv.End()) {
+			return ex{code: leanIdent(x.Name)}, true
+		}
+		return ex{code: fmt.Sprintf("%q", x.Name)}, value
+	case *ast.SelectorExpr:
+		if c.isFieldPath(x) {
+			return ex{code: fmt.Sprintf("%q", c.show(x))}, true
+		}
+	case *ast.CallExpr:
+		if value {
+			return ex{code: "«call:" + c.traceEntry(x) + "»" + fmt.Sprintf("%q", c.show(x))}, true
+		}
+	}
+	return ex{}, false
+}
+
+func (c *fctx) isFieldPath(e ast.Expr) bool {
+	switch x := e.(type) {
+	case *ast.Ident:
+		_, ok := c.p.info.Uses[x].(*types.Var)
+		return ok
+	case *ast.SelectorExpr:
+		sel := c.p.info.Selections[x]
+		return sel != nil && sel.Kind() == types.FieldVal && c.isFieldPath(x.X)
+	}
+	return false
 }
 
 // bind2 combines sub-expressions: f receives pure codes.
@@ -744,17 +959,24 @@ func (c *fctx) expr(e ast.Expr) ex {
 					xs = append(xs, c.expr(v))
 				}
 			}
-			return c.bindN(xs, func(s []string) string {
+			r := c.bindN(xs, func(s []string) string {
 				if len(s) == 0 {
 					return "true"
 				}
 				return "(Function.const _ true (" + strings.Join(s, ", ") + "))"
 			})
+			if c.trace && c.t.traceNew {
+				r.code += "«call:" + c.litEntry(cl) + "»"
+			}
+			return r
 		}
 		if cl, ok := x.X.(*ast.CompositeLit); ok && x.Op == token.AND {
 			return c.bindN([]ex{c.expr(cl)}, func(s []string) string { return "(some " + s[0] + ")" })
 		}
 		a := c.expr(x.X)
+		if _, isLit := x.X.(*ast.CompositeLit); isLit && x.Op == token.AND && strings.HasPrefix(c.t.leanType(c.typeOf(x)), "(Option S_") {
+			return c.bindN([]ex{a}, func(s []string) string { return "(some " + s[0] + ")" })
+		}
 		switch x.Op {
 		case token.NOT:
 			return c.bindN([]ex{a}, func(s []string) string { return "(!" + s[0] + ")" })
@@ -762,6 +984,10 @@ func (c *fctx) expr(e ast.Expr) ex {
 			return c.bindN([]ex{a}, func(s []string) string { return "(-" + s[0] + ")" })
 		case token.ADD:
 			return a
+		case token.AND:
+			if _, isLit := x.X.(*ast.CompositeLit); isLit {
+				return c.bindN([]ex{a}, func(s []string) string { return "(some " + s[0] + ")" })
+			}
 		}
 		fail("unary %s", x.Op)
 	case *ast.BinaryExpr:
@@ -784,6 +1010,9 @@ func (c *fctx) expr(e ast.Expr) ex {
 					return c.structLit(x, st, lt)
 				}
 			}
+		}
+		if n, ok := c.typeOf(x).(*types.Named); ok && len(x.Elts) == 0 && n.Obj().Pkg() != nil && c.t.symb[n.Obj().Pkg().Path()+"."+n.Obj().Name()] != "" {
+			return ex{code: c.zero(n)}
 		}
 	}
 	if ix, ok := e.(*ast.IndexExpr); ok {
@@ -814,40 +1043,92 @@ func (c *fctx) expr(e ast.Expr) ex {
 			}
 		}
 	}
+	if se, ok := e.(*ast.SliceExpr); ok && c.trace && !isString(c.typeOf(e)) {
+		// re-slicing (capacity) is beyond the subset: an opaque value; a call
+		// operand is evaluated for the trace, then ("slice", [text with bounds])
+		pre := ""
+		if _, isCall := se.X.(*ast.CallExpr); isCall {
+			_, calls := traceSplit(c.expr(se.X).code)
+			for _, m := range calls {
+				pre += "«call:" + m + "»"
+			}
+		}
+		if c.opaqueNodes == nil {
+			c.opaqueNodes = map[ast.Expr]string{}
+		}
+		name, ok := c.opaqueNodes[e]
+		if !ok {
+			c.nOpaque++
+			name = fmt.Sprintf("e%d_slice", c.nOpaque)
+			c.opaque = append(c.opaque, fmt.Sprintf("(%s : %s)", name, c.t.valType(c.typeOf(e))))
+			c.opaqueNodes[e] = name
+		}
+		return ex{code: pre + "«call:(\"slice\", [" + c.traceArg(se) + "])»" + name}
+	}
+	if ta, ok := e.(*ast.TypeAssertExpr); ok && c.typeTests[ta] {
+		// "the dynamic type of X is T" (a clause of a type switch): an opaque Bool
+		key := c.show(ta.X) + " is " + c.show(ta.Type)
+		if n, ok := c.opaqueVals[key]; ok {
+			return ex{code: n}
+		}
+		if c.opaqueVals == nil {
+			c.opaqueVals = map[string]string{}
+		}
+		c.nOpaque++
+		name := fmt.Sprintf("e%d_is_%s", c.nOpaque, sanitize(lastName(c.show(ta.Type))))
+		c.opaque = append(c.opaque, fmt.Sprintf("(%s : Bool)", name))
+		c.opaqueVals[key] = name
+		return ex{code: name}
+	}
+	if _, ok := e.(*ast.TypeAssertExpr); ok {
+		return c.opaqueValue(e)
+	}
 	fail("expression %s (%T)", c.show(e), e)
 	return ex{}
 }
 
-// structLit translates a keyed literal of a translated struct type: fields that
-// are not mentioned get their zero value, fields of untranslatable type are
-// dropped (values are evaluated in the order of the fields).
+// structLit translates a keyed literal `T{f: v, …}` of a translated struct
+// type: the given fields are evaluated in the order of the literal, the other
+// fields are zero; elements of fields the structure does not have (abstract
+// types) are dropped; in traced functions they must be call-free (a dropped call
+// would be a lost effect).
 func (c *fctx) structLit(x *ast.CompositeLit, st *types.Struct, lt string) ex {
-	vals := map[string]ast.Expr{}
+	var xs []ex
+	var names []string
+	given := map[string]bool{}
 	for _, el := range x.Elts {
 		kv, ok := el.(*ast.KeyValueExpr)
 		if !ok {
 			fail("positional struct literal %s", c.show(x))
 		}
-		vals[kv.Key.(*ast.Ident).Name] = kv.Value
-	}
-	var names []string
-	var xs []ex
-	for i := 0; i < st.NumFields(); i++ {
-		f := st.Field(i)
-		if c.t.leanType(f.Type()) == "" {
+		k := kv.Key.(*ast.Ident).Name
+		ft := c.typeOf(kv.Value)
+		for i := 0; i < st.NumFields(); i++ {
+			if st.Field(i).Name() == k {
+				ft = st.Field(i).Type()
+			}
+		}
+		given[k] = true
+		if c.t.leanType(ft) == "" {
+			if c.trace && hasCall(kv.Value) {
+				fail("call in dropped field %s", c.show(kv)) // its trace entry would be lost
+			}
 			continue
 		}
-		names = append(names, leanIdent(f.Name()))
-		if v, ok := vals[f.Name()]; ok {
-			xs = append(xs, c.exprAs(v, f.Type()))
-		} else {
-			xs = append(xs, ex{code: c.zero(f.Type())})
-		}
+		xs, names = append(xs, c.exprAs(kv.Value, ft)), append(names, leanIdent(k))
 	}
 	return c.bindN(xs, func(s []string) string {
 		var parts []string
 		for i, n := range names {
 			parts = append(parts, n+" := "+s[i])
+		}
+		for i := 0; i < st.NumFields(); i++ {
+			if f := st.Field(i); !given[f.Name()] && c.t.leanType(f.Type()) != "" {
+				parts = append(parts, leanIdent(f.Name())+" := "+c.zero(f.Type()))
+			}
+		}
+		if len(parts) == 0 {
+			return lt + ".mk"
 		}
 		return "({ " + strings.Join(parts, ", ") + " } : " + lt + ")"
 	})
@@ -890,10 +1171,31 @@ func (c *fctx) tokenLit(x *ast.CompositeLit) ex {
 	})
 }
 
+// litEntry is the trace entry of `&T{K: v, …}` of abstract type: ("new T",
+// ["K=" ++ value, …]), nested literals flattened to "K.L=…"; values as in traceArg.
+func (c *fctx) litEntry(cl *ast.CompositeLit) string {
+	var args []string
+	var walk func(l *ast.CompositeLit, prefix string)
+	walk = func(l *ast.CompositeLit, prefix string) {
+		for _, el := range l.Elts {
+			kv, ok := el.(*ast.KeyValueExpr)
+			if !ok {
+				args = append(args, c.traceArg(el))
+			} else if in, ok := kv.Value.(*ast.CompositeLit); ok {
+				walk(in, prefix+c.show(kv.Key)+".")
+			} else {
+				args = append(args, fmt.Sprintf("(%q ++ %s)", prefix+c.show(kv.Key)+"=", c.traceArg(kv.Value)))
+			}
+		}
+	}
+	walk(cl, "")
+	return fmt.Sprintf("(%q, [%s])", "new "+c.show(cl.Type), strings.Join(args, ", "))
+}
+
 // opaqueValue turns an expression the subset cannot express (an element of a
 // slice, a field of a library struct) into an extra parameter holding its value.
 func (c *fctx) opaqueValue(e ast.Expr) ex {
-	if c.loop != nil {
+	if c.loop != nil && !c.spec.LoopOpaque {
 		fail("value %s read from an abstract object inside a loop", c.show(e))
 	}
 	lt := c.t.valType(c.typeOf(e))
@@ -915,7 +1217,12 @@ func (c *fctx) opaqueValue(e ast.Expr) ex {
 		return ex{code: n}
 	}
 	c.nOpaque++
-	name := fmt.Sprintf("e%d_%s", c.nOpaque, sanitize(lastName(key)))
+	name := fmt.Sprintf("e%d_%s", c.nOpaque, strings.Map(func(r rune) rune {
+		if r == '_' || r >= '0' && r <= '9' || r >= 'a' && r <= 'z' || r >= 'A' && r <= 'Z' {
+			return r
+		}
+		return -1
+	}, strings.NewReplacer("==", "_is_", "!=", "_not_").Replace(sanitize(lastName(key)))))
 	c.opaque = append(c.opaque, fmt.Sprintf("(%s : %s)", name, lt))
 	c.opaqueVals[key] = name
 	c.opaqueNodes[e] = name
@@ -1014,7 +1321,7 @@ func (c *fctx) binary(x *ast.BinaryExpr) ex {
 			var r string
 			if isBool(tx) {
 				r = "(" + s[0] + " == " + s[1] + ")"
-			} else if isInt(tx) || isString(tx) || (c.t.symbolic && c.t.abstract(tx)) {
+			} else if isInt(tx) || isString(tx) || (c.t.symbolic && c.t.abstract(tx)) || c.t.leanType(tx) == "String" {
 				r = "(decide (" + s[0] + " = " + s[1] + "))"
 			} else {
 				fail("equality on %s", tx)
@@ -1126,6 +1433,20 @@ func (c *fctx) call(x *ast.CallExpr) ex {
 		if c.t.leanType(from) != "" && c.t.leanType(from) == c.t.leanType(to) {
 			return c.expr(x.Args[0])
 		}
+		if in, ok := x.Args[0].(*ast.CallExpr); ok && isInt(to) && len(in.Args) == 0 {
+			// intN(d.Seconds()) for a time.Duration d: whole seconds, truncated
+			// (the float64 rounding of very large durations is not modelled)
+			if key, recv := c.calleeKey(in); key == "time.Duration.Seconds" {
+				a := c.expr(recv)
+				return c.bindN([]ex{a}, func(s []string) string {
+					r := "(Int.tdiv " + s[0] + " (1000000000 : Int))"
+					if bits := unsignedBits(to); bits > 0 {
+						return fmt.Sprintf("(goWrapU %s %s)", pow2(bits), r)
+					}
+					return r
+				})
+			}
+		}
 		fail("conversion %s from %s", c.show(x), from)
 	}
 	// builtins
@@ -1231,7 +1552,7 @@ func (c *fctx) call(x *ast.CallExpr) ex {
 			return "(if " + fmt.Sprintf(test, s[1]) + " then some (" + s[0] + " ++ \": not positive\") else none)"
 		})
 	}
-	if key == "slices.Contains" && len(x.Args) == 2 && c.t.leanType(c.typeOf(x.Args[0])) != "" {
+	if key == "slices.Contains" && len(x.Args) == 2 && c.t.leanType(c.typeOf(x.Args[0])) != "" && !c.matches(c.spec.Pure, x) {
 		xs := []ex{c.expr(x.Args[0]), c.expr(x.Args[1])}
 		return c.bindN(xs, func(s []string) string { return "(" + s[0] + ".contains " + s[1] + ")" })
 	}
@@ -1266,7 +1587,7 @@ func (c *fctx) call(x *ast.CallExpr) ex {
 		return r
 	}
 	// errors made by any other call: opaque non-nil error value labelled by source text
-	if isError(c.typeOf(x)) {
+	if isError(c.typeOf(x)) && !(c.trace && c.t.traceErrors) && !c.matches(c.spec.Pure, x) {
 		if tup, ok := c.typeOf(x).(*types.Tuple); !ok || tup.Len() == 1 {
 			switch c.show(x.Fun) {
 			case "fmt.Errorf", "errors.New", "errors.Error", "newNotPositiveError", "newNegativeError", "newMustBeUniqueError":
@@ -1275,7 +1596,7 @@ func (c *fctx) call(x *ast.CallExpr) ex {
 		}
 	}
 	// opaque call
-	if c.loop != nil {
+	if c.loop != nil && !c.spec.LoopOpaque {
 		// one parameter cannot stand for the results of the call in every iteration
 		fail("opaque call %s inside a loop", c.show(x))
 	}
@@ -1307,10 +1628,22 @@ func (c *fctx) traceEntry(x *ast.CallExpr) string {
 			args = append(args, c.traceArg(se.X))
 		}
 	}
+	if se, ok := x.Fun.(*ast.SelectorExpr); ok && c.spec.Names {
+		// a method of an abstract *local*: which value it holds is the first argument
+		if id, ok := se.X.(*ast.Ident); ok && c.p.info.Selections[se] != nil && c.t.leanType(c.typeOf(id)) == "" {
+			if a, ok := c.absExpr(id, false); ok {
+				args = append(args, a.code)
+			}
+		}
+	}
 	for _, a := range x.Args {
 		args = append(args, c.traceArg(a))
 	}
-	return fmt.Sprintf("(%q, [%s])", lastName(c.show(x.Fun)), strings.Join(args, ", "))
+	name := lastName(c.show(x.Fun))
+	if parts := strings.Split(c.show(x.Fun), "."); c.spec.TraceQual && len(parts) >= 2 {
+		name = strings.Join(parts[len(parts)-2:], ".")
+	}
+	return fmt.Sprintf("(%q, [%s])", name, strings.Join(args, ", "))
 }
 
 func (c *fctx) traceArg(a ast.Expr) (code string) {
@@ -1349,12 +1682,39 @@ func (c *fctx) traceArg(a ast.Expr) (code string) {
 		}
 	}
 	lt := c.t.leanType(tv.Type)
+	if lt == "" && c.spec.Names {
+		if a, ok := c.absExpr(a, false); ok {
+			return a.code
+		}
+	}
+	if se, ok := a.(*ast.SliceExpr); ok && lt != "String" && !c.t.symbolic {
+		// a slice expression: the operand's source text with the bounds' values
+		// (in symbolic mode it is an opaque value, rendered as a token below)
+		parts := []string{fmt.Sprintf("%q", c.show(se.X)+"[")}
+		for i, b := range []ast.Expr{se.Low, se.High, se.Max} {
+			if i > 0 && (i < 2 || se.Slice3) {
+				parts = append(parts, "\":\"")
+			}
+			if b != nil {
+				parts = append(parts, c.traceArg(b))
+			}
+		}
+		return "(" + strings.Join(append(parts, "\"]\""), " ++ ") + ")"
+	}
+	if se, ok := a.(*ast.SelectorExpr); ok && lt == "" && c.spec.TraceRepr {
+		if sel := c.p.info.Selections[se]; sel != nil && sel.Kind() == types.FieldVal && c.t.leanType(c.typeOf(se.X)) != "" {
+			return fmt.Sprintf("%q", "field:"+se.Sel.Name) // abstract field of a translated structure: its name
+		}
+	}
 	render := "(toString %s)"
 	switch {
 	case lt == "String":
 		render = "%s"
 	case lt == "Int" || lt == "Bool":
 	case c.t.symbolic && (lt == "(Option String)" || lt == "(List Int)" || lt == "(List String)"):
+	case c.spec.TraceRepr && lt != "":
+		// "trace_repr": structures, options and lists are shown with reprStr
+		render = "(reprStr %s)"
 	case lt == "(Option String)":
 		// an error argument: only whether it is nil
 		render = "(if (%s).isSome then \"err\" else \"nil\")"
@@ -1461,6 +1821,35 @@ func (c *fctx) forget() {
 			delete(c.opaqueCalls, k)
 		}
 	}
+}
+
+// nestedTrace ("trace_nested") translates a traced call statement whose
+// arguments are themselves calls of scalar type: those are evaluated first,
+// left to right (opaque ones get their own trace entries and parameters), and
+// their values are the argument values of the outer entry.
+func (c *fctx) nestedTrace(call *ast.CallExpr, rest []ast.Stmt) string {
+	var xs []ex
+	at := map[int]int{}
+	for i, a := range call.Args {
+		ac, ok := ast.Unparen(a).(*ast.CallExpr)
+		if lt := c.t.leanType(c.typeOf(a)); ok && (lt == "String" || lt == "Int" || lt == "Bool") {
+			at[i] = len(xs)
+			xs = append(xs, c.expr(ac))
+		}
+	}
+	return c.withExs(xs, func(codes []string) string {
+		var args []string
+		for i, a := range call.Args {
+			if k, ok := at[i]; !ok {
+				args = append(args, c.traceArg(a))
+			} else if c.t.leanType(c.typeOf(a)) == "String" {
+				args = append(args, codes[k])
+			} else {
+				args = append(args, "(toString "+codes[k]+")")
+			}
+		}
+		return fmt.Sprintf("let tr := tr ++ [(%q, [%s])]\n", lastName(c.show(call.Fun)), strings.Join(args, ", ")) + c.stmts(rest)
+	})
 }
 
 func lastName(s string) string {
@@ -1583,6 +1972,9 @@ func (c *fctx) ret(vals []string) string {
 			parts = append(parts, leanIdent(c.recv))
 		}
 		parts = append(parts, vals...)
+		for _, o := range c.spec.Out {
+			parts = append(parts, leanIdent(o))
+		}
 		if c.trace {
 			parts = append(parts, "tr")
 		}
@@ -1628,6 +2020,39 @@ func (c *fctx) runDefers(i int, final func() string) string {
 	return code
 }
 
+// countedLoop translates `for range n { f(…); _ = g(…) }` over an integer n
+// whose body consists only of opaque calls with discarded results: the body's
+// trace entries are appended n times.
+func (c *fctx) countedLoop(x *ast.RangeStmt, rest []ast.Stmt) string {
+	var entries []string
+	for _, b := range x.Body.List {
+		var call *ast.CallExpr
+		switch bs := b.(type) {
+		case *ast.ExprStmt:
+			call, _ = bs.X.(*ast.CallExpr)
+		case *ast.AssignStmt:
+			blank := len(bs.Rhs) == 1
+			for _, l := range bs.Lhs {
+				if id, ok := l.(*ast.Ident); !ok || id.Name != "_" {
+					blank = false
+				}
+			}
+			if blank {
+				call, _ = bs.Rhs[0].(*ast.CallExpr)
+			}
+		}
+		if call == nil {
+			fail("statement %s in a counted loop", c.show(b))
+		}
+		if !c.matches(c.spec.Ignore, call) {
+			entries = append(entries, c.traceEntry(call))
+		}
+	}
+	return c.withEx(c.expr(x.X), func(code string) string {
+		return fmt.Sprintf("let tr := tr ++ (List.replicate (Int.toNat %s) [%s]).flatten\n", code, strings.Join(entries, ", ")) + c.stmts(rest)
+	})
+}
+
 // loopCtx is the innermost enclosing range loop: its carried variables.
 type loopCtx struct {
 	state []string
@@ -1653,10 +2078,17 @@ func (c *fctx) rangeLoop(x *ast.RangeStmt, rest []ast.Stmt) string {
 		fail("range with assignment to existing variables")
 	}
 	sl, ok := c.typeOf(x.X).Underlying().(*types.Slice)
-	if !ok || c.t.leanType(c.typeOf(x.X)) == "" {
+	mp, isMap := c.typeOf(x.X).Underlying().(*types.Map)
+	isMap = isMap && c.t.leanType(mp.Key()) != "" && c.t.leanType(mp.Elem()) != ""
+	if (!ok || c.t.leanType(c.typeOf(x.X)) == "") && !isMap {
 		fail("range over %s", c.typeOf(x.X))
 	}
-	elT := c.t.leanType(sl.Elem())
+	elT := ""
+	if isMap {
+		elT = "(" + c.t.leanType(mp.Key()) + " × " + c.t.leanType(mp.Elem()) + ")"
+	} else {
+		elT = c.t.leanType(sl.Elem())
+	}
 	// carried variables
 	var vars, varTypes []string
 	seen := map[string]bool{}
@@ -1729,7 +2161,30 @@ func (c *fctx) rangeLoop(x *ast.RangeStmt, rest []ast.Stmt) string {
 	if id, ok := x.Value.(*ast.Ident); ok && x.Value != nil {
 		val = leanIdent(id.Name)
 	}
-	coll := c.expr(x.X)
+	var coll ex
+	mapDestr := ""
+	if isMap {
+		if c.opaqueNodes == nil {
+			c.opaqueNodes = map[ast.Expr]string{}
+		}
+		name, seen := c.opaqueNodes[x.X]
+		if !seen {
+			c.nOpaque++
+			name = fmt.Sprintf("e%d_%s_entries", c.nOpaque, sanitize(lastName(c.show(x.X))))
+			c.opaque = append(c.opaque, fmt.Sprintf("(%s : (List %s))", name, elT))
+			c.opaqueNodes[x.X] = name
+		}
+		coll = ex{code: name}
+		if key != "_" {
+			mapDestr += "let " + key + " := kv.1\n"
+		}
+		if val != "_" {
+			mapDestr += "let " + val + " := kv.2\n"
+		}
+		key, val = "_", "kv"
+	} else {
+		coll = c.expr(x.X)
+	}
 	return c.withEx(coll, func(collCode string) string {
 		savedLoop, savedPartial := c.loop, c.partial
 		c.loop, c.partial = &loopCtx{state: vars}, false
@@ -1748,7 +2203,7 @@ func (c *fctx) rangeLoop(x *ast.RangeStmt, rest []ast.Stmt) string {
 		} else if len(vars) == 1 {
 			destr = "let " + vars[0] + " := st\n"
 		}
-		loop := fmt.Sprintf("%s (σ := %s) (ρ := %s) %s %s fun st (%s : Int) (%s : %s) =>\n%s", fn, sigma, rho, collCode, c.stateTuple(vars), key, val, elT, indent(destr+body))
+		loop := fmt.Sprintf("%s (σ := %s) (ρ := %s) %s %s fun st (%s : Int) (%s : %s) =>\n%s", fn, sigma, rho, collCode, c.stateTuple(vars), key, val, elT, indent(destr+mapDestr+body))
 		after := c.stmts(rest)
 		if bodyPartial {
 			return fmt.Sprintf("match %s with\n| none => none\n| some (.inr r) => «ret»r\n| some (.inl st) =>\n%s", loop, indent(destr+after))
@@ -1828,8 +2283,56 @@ func (c *fctx) stmts(list []ast.Stmt) string {
 		})
 	case *ast.SwitchStmt:
 		return c.stmts(append(c.desugarSwitch(x), rest...))
+	case *ast.EmptyStmt:
+		if n, ok := c.loopEnd[x]; ok {
+			if c.nOpaque != n {
+				fail("loop body reads values that vary per element")
+			}
+			return "let tr := tr ++ [(\"end\", [])]\n" + c.stmts(rest)
+		}
+		return c.stmts(rest)
 	case *ast.RangeStmt:
-		return c.rangeLoop(x, rest)
+		if x.Key == nil && x.Value == nil && isInt(c.typeOf(x.X)) && c.trace && c.loop == nil {
+			return c.countedLoop(x, rest)
+		}
+		if mp, isMap := c.typeOf(x.X).Underlying().(*types.Map); isMap && c.t.leanType(mp.Key()) != "" && c.t.leanType(mp.Elem()) != "" {
+			return c.rangeLoop(x, rest) // goRange over an opaque list of entries
+		}
+		if !c.trace || !c.t.isAbstract(c.typeOf(x.X)) {
+			return c.rangeLoop(x, rest)
+		}
+		// effect loop over an abstract collection: see the header comment
+		head := "range " + c.show(x.X)
+		for _, v := range []ast.Expr{x.Value, x.Key} {
+			if id, ok := v.(*ast.Ident); ok && (id.Name == "_" || c.t.isAbstract(c.lhsType(id))) {
+				head = id.Name + ", " + head
+			} else if v != nil {
+				fail("loop variable %s", c.show(v))
+			}
+		}
+		for _, b := range x.Body.List {
+			switch s := b.(type) {
+			case *ast.RangeStmt, *ast.ExprStmt:
+			case *ast.AssignStmt:
+				if len(s.Lhs) != 1 || s.Tok != token.ASSIGN || !c.abstractTarget(s.Lhs[0]) {
+					fail("assignment %s in a loop over an abstract collection", c.show(s))
+				}
+			default:
+				fail("statement %s in a loop over an abstract collection", c.show(b))
+			}
+		}
+		end := &ast.EmptyStmt{}
+		if c.loopEnd == nil {
+			c.loopEnd = map[*ast.EmptyStmt]int{}
+		}
+		c.loopEnd[end] = c.nOpaque
+		return fmt.Sprintf("let tr := tr ++ [(\"for\", [%q])]\n", head) +
+			c.stmts(append(append(append([]ast.Stmt{}, x.Body.List...), end), rest...))
+	case *ast.TypeSwitchStmt:
+		if c.typeSwitchSubjectSymbolic(x) {
+			return c.typeSwitch(x, rest)
+		}
+		return c.stmts(append(c.desugarTypeSwitch(x), rest...))
 	case *ast.BranchStmt:
 		if c.loop != nil && x.Label == nil {
 			switch x.Tok {
@@ -1839,13 +2342,17 @@ func (c *fctx) stmts(list []ast.Stmt) string {
 				return "«step»(.brk " + c.stateTuple(c.loop.state) + ")"
 			}
 		}
+		if c.loop == nil && c.spec.RangeBody && x.Label == nil && x.Tok == token.CONTINUE {
+			return c.stmts(nil)
+		}
 		fail("branch statement %s", x.Tok)
 	case *ast.BlockStmt:
 		return c.stmts(append(append([]ast.Stmt{}, x.List...), rest...))
-	case *ast.EmptyStmt:
-		return c.stmts(rest)
 	case *ast.DeclStmt:
 		gd, ok := x.Decl.(*ast.GenDecl)
+		if ok && gd.Tok == token.CONST {
+			return c.stmts(rest) // local constants are folded where they are used
+		}
 		if !ok || gd.Tok != token.VAR {
 			fail("declaration %s", c.show(x))
 		}
@@ -1884,8 +2391,17 @@ func (c *fctx) stmts(list []ast.Stmt) string {
 		if c.matches(c.spec.Ignore, call) {
 			return c.stmts(rest)
 		}
+		if id, ok := call.Fun.(*ast.Ident); ok && id.Name == "panic" && c.loop == nil {
+			if _, isB := c.p.info.Uses[id].(*types.Builtin); isB {
+				c.partial = true
+				return "none"
+			}
+		}
 		if !c.trace {
 			fail("call statement %s (not ignored, no trace)", c.show(x))
+		}
+		if c.spec.TraceNested {
+			return c.nestedTrace(call, rest)
 		}
 		return "let tr := tr ++ [" + c.traceEntry(call) + "]\n" + c.stmts(rest)
 	case *ast.DeferStmt:
@@ -1929,6 +2445,62 @@ func (c *fctx) stmts(list []ast.Stmt) string {
 	}
 	fail("statement %s (%T)", c.show(s), s)
 	return ""
+}
+
+// typeSwitch translates `switch [v :=] x.(type)` over a symbolic interface
+// value (Option String: none = nil, some t = dynamic type t): an if-chain in
+// clause order, `case nil` is `x.isNone`, `case T` is `x == some "<T>"` with T
+// printed with package names; the default clause comes last.
+func (c *fctx) typeSwitch(x *ast.TypeSwitchStmt, rest []ast.Stmt) string {
+	var ta *ast.TypeAssertExpr
+	switch a := x.Assign.(type) {
+	case *ast.ExprStmt:
+		ta, _ = a.X.(*ast.TypeAssertExpr)
+	case *ast.AssignStmt:
+		ta, _ = a.Rhs[0].(*ast.TypeAssertExpr)
+	}
+	if x.Init != nil || ta == nil || c.t.leanType(c.typeOf(ta.X)) != "(Option String)" {
+		fail("type switch %s", c.show(x.Assign))
+	}
+	subj := c.expr(ta.X)
+	if subj.partial || strings.Contains(subj.code, "«call:") {
+		fail("type switch on a partial expression %s", c.show(ta.X))
+	}
+	out, deflt := "", rest
+	closing := 0
+	for _, cl := range x.Body.List {
+		cc := cl.(*ast.CaseClause)
+		ast.Inspect(cc, func(n ast.Node) bool {
+			if b, ok := n.(*ast.BranchStmt); ok {
+				fail("branch statement %s in type switch", b.Tok)
+			}
+			return true
+		})
+		if cc.List == nil {
+			deflt = append(append([]ast.Stmt{}, cc.Body...), rest...)
+			continue
+		}
+		var conds []string
+		for _, e := range cc.List {
+			if id, ok := e.(*ast.Ident); ok && id.Name == "nil" {
+				conds = append(conds, "("+subj.code+").isNone")
+			} else {
+				conds = append(conds, fmt.Sprintf("(%s == some %q)", subj.code, types.TypeString(c.typeOf(e), func(p *types.Package) string { return p.Name() })))
+			}
+		}
+		out += fmt.Sprintf("if (%s) then\n%s\nelse (\n", strings.Join(conds, " || "), indent(c.stmts(append(append([]ast.Stmt{}, cc.Body...), rest...))))
+		closing++
+	}
+	return out + indent(c.stmts(deflt)) + strings.Repeat(")", closing)
+}
+
+func hasCall(e ast.Expr) (found bool) {
+	ast.Inspect(e, func(n ast.Node) bool {
+		_, isCall := n.(*ast.CallExpr)
+		found = found || isCall
+		return !found
+	})
+	return found
 }
 
 func proj(code string, i, n int) string {
@@ -2035,8 +2607,53 @@ func (c *fctx) desugarSwitch(x *ast.SwitchStmt) []ast.Stmt {
 	return append(pre, chain)
 }
 
+// typeSwitchSubjectSymbolic reports whether the subject of a type switch is a
+// symbolic interface value (Option String): then typeSwitch compares dynamic type
+// names; otherwise (abstract subject) desugarTypeSwitch uses opaque Bool tests.
+func (c *fctx) typeSwitchSubjectSymbolic(x *ast.TypeSwitchStmt) bool {
+	var ta *ast.TypeAssertExpr
+	switch a := x.Assign.(type) {
+	case *ast.ExprStmt:
+		ta, _ = a.X.(*ast.TypeAssertExpr)
+	case *ast.AssignStmt:
+		ta, _ = a.Rhs[0].(*ast.TypeAssertExpr)
+	}
+	return ta != nil && c.t.leanType(c.typeOf(ta.X)) == "(Option String)"
+}
+
+// desugarTypeSwitch turns a type switch on an abstract value into an if-chain
+// over opaque Bool parameters "the dynamic type is T", tested in clause order.
+func (c *fctx) desugarTypeSwitch(x *ast.TypeSwitchStmt) []ast.Stmt {
+	var ta *ast.TypeAssertExpr
+	switch a := x.Assign.(type) {
+	case *ast.ExprStmt:
+		ta, _ = a.X.(*ast.TypeAssertExpr)
+	case *ast.AssignStmt:
+		ta, _ = a.Rhs[0].(*ast.TypeAssertExpr)
+	}
+	if x.Init != nil || ta == nil || c.t.leanType(c.typeOf(ta.X)) != "" {
+		fail("type switch %s", c.show(x.Assign))
+	}
+	if c.typeTests == nil {
+		c.typeTests = map[*ast.TypeAssertExpr]bool{}
+	}
+	sw := &ast.SwitchStmt{Body: &ast.BlockStmt{}}
+	for _, cl := range x.Body.List {
+		cc := cl.(*ast.CaseClause)
+		nc := &ast.CaseClause{Body: cc.Body}
+		for _, ty := range cc.List {
+			t := &ast.TypeAssertExpr{X: ta.X, Type: ty}
+			c.p.info.Types[t] = types.TypeAndValue{Type: types.Typ[types.Bool]}
+			c.typeTests[t] = true
+			nc.List = append(nc.List, t)
+		}
+		sw.Body.List = append(sw.Body.List, nc)
+	}
+	return c.desugarSwitch(sw)
+}
+
 func (c *fctx) assignStmt(x *ast.AssignStmt, rest []ast.Stmt) string {
-	if len(x.Lhs) == 1 && len(x.Rhs) == 1 && c.abstractTarget(x.Lhs[0]) {
+	if len(x.Lhs) == 1 && len(x.Rhs) == 1 && !c.spec.DropAbstract && c.abstractTarget(x.Lhs[0]) {
 		op := ""
 		if x.Tok != token.ASSIGN {
 			op = " " + x.Tok.String()
@@ -2052,8 +2669,14 @@ func (c *fctx) assignStmt(x *ast.AssignStmt, rest []ast.Stmt) string {
 		if call, ok := x.Rhs[0].(*ast.CallExpr); ok && !isBuiltin(call) {
 			// evaluate the call first (for the trace), then record the write
 			e := c.expr(call)
-			return c.withEx(e, func(string) string {
-				return c.abstractWrite(x.Lhs[0], op, &ast.Ident{Name: "_"}, func() string { return c.stmts(rest) })
+			return c.withEx(e, func(code string) string {
+				var v ast.Expr = &ast.Ident{Name: "_"}
+				if lt := c.t.leanType(c.typeOf(call)); lt == "Int" || lt == "Bool" {
+					v = &ast.Ident{Name: "«(toString " + code + ")»"} // value of scalar type: rendered
+				} else if lt == "String" {
+					v = &ast.Ident{Name: "«" + code + "»"}
+				}
+				return c.abstractWrite(x.Lhs[0], op, v, func() string { return c.stmts(rest) })
 			})
 		}
 		return c.abstractWrite(x.Lhs[0], op, x.Rhs[0], func() string { return c.stmts(rest) })
@@ -2071,6 +2694,26 @@ func (c *fctx) assignStmt(x *ast.AssignStmt, rest []ast.Stmt) string {
 		be := &ast.BinaryExpr{X: x.Lhs[0], Op: op, Y: x.Rhs[0]}
 		c.p.info.Types[be] = types.TypeAndValue{Type: c.typeOf(x.Lhs[0])}
 		return c.assign(x.Lhs[0], c.expr(be), rest, nil)
+	}
+	if len(x.Lhs) == 1 && len(x.Rhs) == 1 && c.spec.DropAbstract {
+		// "drop_abstract": the binding of a variable of abstract type is dropped; a call on the
+		// right-hand side remains an effect (ignored, pure or traced)
+		if id, ok := x.Lhs[0].(*ast.Ident); ok && id.Name != "_" {
+			if lt := c.lhsType(id); lt != nil && c.t.leanType(lt) == "" {
+				switch r := ast.Unparen(x.Rhs[0]).(type) {
+				case *ast.Ident, *ast.SelectorExpr:
+					return c.stmts(rest)
+				case *ast.CallExpr:
+					if c.matches(c.spec.Ignore, r) || c.matches(c.spec.Pure, r) {
+						return c.stmts(rest)
+					}
+					if c.trace {
+						return "let tr := tr ++ [" + c.traceEntry(r) + "]\n" + c.stmts(rest)
+					}
+				}
+				fail("assignment %s to a variable of abstract type", c.show(x))
+			}
+		}
 	}
 	if len(x.Lhs) == len(x.Rhs) {
 		if len(x.Lhs) == 1 {
@@ -2147,6 +2790,9 @@ func (c *fctx) assign(lhs ast.Expr, e ex, rest []ast.Stmt, _ ast.Expr) string {
 // assignCode emits `lhs := code` followed by k().
 // abstractTarget reports whether lhs is a field (path) of an abstract object.
 func (c *fctx) abstractTarget(lhs ast.Expr) bool {
+	if st, ok := lhs.(*ast.StarExpr); ok {
+		return c.t.valType(c.typeOf(st.X)) == "AbsPtr" // *p = v through an abstract pointer
+	}
 	se, ok := lhs.(*ast.SelectorExpr)
 	if !ok {
 		return false
@@ -2161,7 +2807,8 @@ func (c *fctx) abstractTarget(lhs ast.Expr) bool {
 	}
 	// a field of abstract type inside a translated struct is not part of the
 	// Lean structure: writing it is an effect as well
-	if sel := c.p.info.Selections[se]; sel != nil && sel.Kind() == types.FieldVal && c.t.isAbstract(sel.Obj().Type()) {
+	// (with "names" the write is recorded by assignCode, with the name of the value)
+	if sel := c.p.info.Selections[se]; sel != nil && sel.Kind() == types.FieldVal && c.t.isAbstract(sel.Obj().Type()) && !c.spec.Names {
 		return true
 	}
 	return false
@@ -2173,7 +2820,9 @@ func (c *fctx) abstractWrite(lhs ast.Expr, op string, rhs ast.Expr, k func() str
 		fail("assignment to %s, a field of an abstract object (needs trace)", c.show(lhs))
 	}
 	val := c.traceArg(rhs)
-	if val == "\"_\"" {
+	if id, ok := rhs.(*ast.Ident); ok && strings.HasPrefix(id.Name, "«") {
+		val = strings.Trim(id.Name, "«»") // already evaluated by the caller
+	} else if val == "\"_\"" {
 		val = fmt.Sprintf("%q", c.show(rhs))
 	}
 	c.opaqueVals = nil
@@ -2209,6 +2858,26 @@ func (c *fctx) assignCode(lhs ast.Expr, code string, k func() string) string {
 		}
 		return fmt.Sprintf("let %s := %s\n", leanIdent(l.Name), code) + k()
 	case *ast.SelectorExpr:
+		if c.trace && c.spec.DropAbstract && c.t.leanType(c.typeOf(l.X)) == "" {
+			// "drop_abstract": field of an abstract value (`r.Out.Host = …`): an effect in the trace
+			switch c.t.leanType(c.typeOf(l)) {
+			case "String":
+			case "Int", "Bool":
+				code = "(toString " + code + ")"
+			default:
+				code = "\"_\""
+			}
+			return fmt.Sprintf("let tr := tr ++ [(%q, [%s])]\n", l.Sel.Name+"=", code) + k()
+		}
+		if c.trace && c.t.isAbstract(c.typeOf(lhs)) {
+			// a field of abstract type of a translated struct is not part of
+			// the Lean structure: the write is an effect, recorded in the trace
+			arg := "\"_\""
+			if c.spec.Names {
+				arg = code
+			}
+			return fmt.Sprintf("let tr := tr ++ [(%q, [%s])]\n", "set "+c.show(lhs), arg) + k()
+		}
 		base, ok := l.X.(*ast.Ident)
 		if !ok {
 			fail("nested field assignment %s", c.show(lhs))
@@ -2223,8 +2892,48 @@ func (c *fctx) assignCode(lhs ast.Expr, code string, k func() string) string {
 		b := leanIdent(base.Name)
 		return fmt.Sprintf("let %s := { %s with %s := %s }\n", b, b, f, code) + k()
 	}
+	if ix, ok := lhs.(*ast.IndexExpr); ok && c.trace {
+		if _, isMap := c.typeOf(ix.X).Underlying().(*types.Map); isMap {
+			c.opaqueVals = nil
+			return fmt.Sprintf("let tr := tr ++ [(%q, [%s] ++ %s)]\n", "set "+c.show(lhs), c.traceArg(ix.Index), c.renderVal(code, c.lhsType(lhs))) + k()
+		}
+	}
 	fail("assignment target %s", c.show(lhs))
 	return ""
+}
+
+// renderVal renders a value for the trace: a list of texts (the scalar fields
+// of a struct in declaration order).
+func (c *fctx) renderVal(code string, t types.Type) string {
+	scalar := func(code string, t types.Type) string {
+		switch c.t.leanType(t) {
+		case "String":
+			return code
+		case "Int", "Bool":
+			return "(toString " + code + ")"
+		}
+		return ""
+	}
+	if r := scalar(code, t); r != "" {
+		return "[" + r + "]"
+	}
+	st, ptr := t, false
+	if p, ok := t.(*types.Pointer); ok {
+		st, ptr = p.Elem(), true
+	}
+	if s, ok := st.Underlying().(*types.Struct); ok && c.t.leanType(t) != "" {
+		var fs []string
+		for i := 0; i < s.NumFields(); i++ {
+			if r := scalar("v."+leanIdent(s.Field(i).Name()), s.Field(i).Type()); r != "" {
+				fs = append(fs, r)
+			}
+		}
+		if ptr {
+			return "(match " + code + " with | none => [\"nil\"] | some v => [" + strings.Join(fs, ", ") + "])"
+		}
+		return "(let v := " + code + "; [" + strings.Join(fs, ", ") + "])"
+	}
+	return "[\"_\"]"
 }
 
 // ---------------------------------------------------------------------------
@@ -2286,15 +2995,50 @@ func (t *translator) translate(sp TrFunc) (fo *funcOut) {
 	if err != nil {
 		fail("load %s: %v", path, err)
 	}
-	fd := t.findDecl(p, sp.Func)
+	outer, litName, isLit := strings.Cut(sp.Func, "#")
+	fd := t.findDecl(p, outer)
 	if fd == nil {
 		fail("function %s not found in %s", sp.Func, sp.Pkg)
+	}
+	var litSig *types.Signature
+	if isLit {
+		// "Outer#name": the function literal bound by `name := func(…) {…}` in Outer
+		ast.Inspect(fd.Body, func(n ast.Node) bool {
+			if as, ok := n.(*ast.AssignStmt); ok && litSig == nil && len(as.Lhs) == 1 && len(as.Rhs) == 1 {
+				id, _ := as.Lhs[0].(*ast.Ident)
+				if fl, ok := as.Rhs[0].(*ast.FuncLit); ok && id != nil && id.Name == litName {
+					litSig, _ = p.info.Types[fl].Type.(*types.Signature)
+					fd = &ast.FuncDecl{Name: fd.Name, Type: fl.Type, Body: fl.Body}
+				}
+			}
+			return litSig == nil
+		})
+		if litSig == nil {
+			fail("function literal %s not found in %s", sp.Func, sp.Pkg)
+		}
 	}
 	c := &fctx{t: t, p: p, spec: sp, fd: fd, trace: sp.Trace}
 	fo.doc = fmt.Sprintf("%s: %s", p.fset.Position(fd.Pos()).Filename[strings.Index(p.fset.Position(fd.Pos()).Filename, "/internal/")+1:], sp.Func)
 	obj := p.info.Defs[fd.Name].(*types.Func)
 	sig := obj.Type().(*types.Signature)
 	var params []string
+	if litSig != nil {
+		sig = litSig
+		// captured variables of translatable type are leading parameters
+		seen := map[types.Object]bool{}
+		ast.Inspect(fd.Body, func(n ast.Node) bool {
+			id, _ := n.(*ast.Ident)
+			if id == nil {
+				return true
+			}
+			v, ok := p.info.Uses[id].(*types.Var)
+			if ok && !v.IsField() && !seen[v] && v.Parent() != p.pkg.Scope() && (v.Pos() < fd.Pos() || v.Pos() > fd.End()) && t.leanType(v.Type()) != "" {
+				seen[v] = true
+				params = append(params, fmt.Sprintf("(%s : %s)", leanIdent(v.Name()), t.leanType(v.Type())))
+			}
+			return true
+		})
+	}
 	if sig.Recv() != nil {
 		c.recv = sig.Recv().Name()
 		rty := sig.Recv().Type()
@@ -2306,7 +3050,11 @@ func (t *translator) translate(sp TrFunc) (fo *funcOut) {
 		if lt == "" {
 			fail("receiver type %s", sig.Recv().Type())
 		}
-		params = append(params, fmt.Sprintf("(%s : %s)", leanIdent(c.recv), lt))
+		if c.recv == "" {
+			params = append(params, fmt.Sprintf("(_ : %s)", lt)) // unnamed receiver
+		} else {
+			params = append(params, fmt.Sprintf("(%s : %s)", leanIdent(c.recv), lt))
+		}
 		// is a field of the receiver assigned anywhere?
 		ast.Inspect(fd.Body, func(n ast.Node) bool {
 			var targets []ast.Expr
@@ -2342,6 +3090,14 @@ func (t *translator) translate(sp TrFunc) (fo *funcOut) {
 	for i := 0; i < sig.Params().Len(); i++ {
 		v := sig.Params().At(i)
 		lt := t.leanType(v.Type())
+		for _, n := range sp.NonNil {
+			if pt, ok := v.Type().(*types.Pointer); ok && n == v.Name() && lt != "" {
+				if c.nonNil == nil {
+					c.nonNil = map[types.Object]bool{}
+				}
+				c.nonNil[v], lt = true, t.leanType(pt.Elem())
+			}
+		}
 		if lt == "" {
 			if nilCompared[v.Name()] && t.valType(v.Type()) == "AbsPtr" {
 				params = append(params, fmt.Sprintf("(%s : AbsPtr)", leanIdent(v.Name())))
@@ -2401,21 +3157,64 @@ func (t *translator) translate(sp TrFunc) (fo *funcOut) {
 		if v.Name() != "" {
 			c.named = true
 		}
+		if t.leanType(v.Type()) == "" && sp.Names {
+			resTypes = append(resTypes, "String") // symbolic name of an abstract value
+			continue
+		}
 		resTypes = append(resTypes, t.valType(v.Type()))
+	}
+	pre := ""
+	for _, o := range sp.Out {
+		var ov types.Object
+		for id, d := range p.info.Defs {
+			if d != nil && id.Name == o && id.Pos() >= fd.Body.Pos() && id.Pos() <= fd.Body.End() && (ov == nil || d.Pos() < ov.Pos()) {
+				ov = d
+			}
+		}
+		if ov == nil || t.leanType(ov.Type()) == "" {
+			fail("out variable %s", o)
+		}
+		resTypes = append(resTypes, t.leanType(ov.Type()))
+		pre += fmt.Sprintf("let %s : %s := %s\n", leanIdent(o), t.leanType(ov.Type()), c.zero(ov.Type()))
 	}
 	if c.trace {
 		resTypes = append(resTypes, "(List (String × List String))")
 	}
-	pre := ""
 	if c.named {
 		for _, v := range c.results {
+			if t.leanType(v.Type()) == "" && sp.Names {
+				pre += fmt.Sprintf("let %s : String := \"nil\"\n", leanIdent(v.Name()))
+				continue
+			}
 			pre += fmt.Sprintf("let %s : %s := %s\n", leanIdent(v.Name()), t.valType(v.Type()), c.zero(v.Type()))
 		}
 	}
 	if c.trace {
 		pre += "let tr : List (String × List String) := []\n"
 	}
-	body := pre + c.stmts(bodyStmts)
+	top := fd.Body.List
+	if sp.RangeBody {
+		var rs *ast.RangeStmt
+		ast.Inspect(fd.Body, func(n ast.Node) bool {
+			if r, ok := n.(*ast.RangeStmt); ok && rs == nil {
+				rs = r
+			}
+			return rs == nil
+		})
+		if rs == nil || rs.Tok != token.DEFINE {
+			fail("range_body: no `for … := range` statement")
+		}
+		for _, e := range []ast.Expr{rs.Key, rs.Value} {
+			if id, ok := e.(*ast.Ident); ok && id.Name != "_" && t.leanType(p.info.Defs[id].Type()) != "" {
+				params = append(params, fmt.Sprintf("(%s : %s)", leanIdent(id.Name), t.leanType(p.info.Defs[id].Type())))
+			}
+		}
+		top = rs.Body.List
+	}
+	if !sp.RangeBody {
+		top = bodyStmts
+	}
+	body := pre + c.stmts(top)
 	rt := "Unit"
 	if len(resTypes) == 1 {
 		rt = resTypes[0]
@@ -2479,7 +3278,7 @@ func runTranslator(specDir, outDir, harness, modfile string) error {
 	sort.Strings(props)
 	for _, prop := range props {
 		sf := specs[prop]
-		t := &translator{l: l, structs: map[string]*structDef{}, funcs: map[string]*funcOut{}, byDecl: map[string]TrFunc{}, symbolic: sf.Symbolic, absBytes: sf.AbstractBytes}
+		t := &translator{l: l, structs: map[string]*structDef{}, funcs: map[string]*funcOut{}, byDecl: map[string]TrFunc{}, symbolic: sf.Symbolic.All, symb: sf.Symbolic.Types, absBytes: sf.AbstractBytes, traceErrors: sf.TraceErrors, traceNew: sf.TraceNew}
 		for _, f := range sf.Funcs {
 			t.byDecl[repoModule+f.Pkg+"."+f.Func] = f
 		}
